@@ -815,7 +815,7 @@ PROPS = {
     ),
     "C02": dict(
         level="proof", module="Rsdns.Props.C02", modules=["Rsdns.Props.C02", "Rsdns.Props.C02Message"],
-        technique="Lean 4 theorem `decode_wellformed` (one linear pass over ANY well-formed message returns exactly the encoded header, questions and records, for every legal name layout) + item-level decode theorems + ground-truth transcript written from the semantic message",
+        technique="Lean 4 theorems `decode_wellformed` and `iter_decode_wellformed` (both reader APIs return, for ANY well-formed message and every legal name layout, exactly the encoded header, questions and records) + item-level decode theorems + ground-truth transcript written from the semantic message",
         level_text="Proved for every well-formed message (specification `MsgAt`: any id/flags/counts, any number of questions, records "
                    "of the 17 data types, OPT and unknown types/classes in any section, every name — owners and names inside RDATA — in "
                    "any legal mix of in-place labels and backward compression pointers): the linear pass `Reader.pass` (the function the "
@@ -827,18 +827,19 @@ PROPS = {
                    "question_decode, record_header_decode (all three header calls), rdata_decode (17 formats). On the implementation, "
                    "well-formed messages are generated from a semantic description and the transcripts of MessageReader and "
                    "MessageIterator are compared field by field with the transcript written from the description.",
-        level_note="The whole-message theorem is about the MessageReader API; the MessageIterator API (records(), questions(), "
-                   "question()) is decided by the ground-truth oracle + correspondence (`truth`, `views`), not by a theorem. QTYPE-only "
-                   "codes 252..255 are not generated as record types. Trusted: Lean kernel; model of reader.rs/records.rs (validated "
+        level_note="Both reader APIs are covered: `decode_wellformed` (MessageReader) and `iter_decode_wellformed` (MessageIterator: "
+                   "new, question, questions, records — exactly the records of the 17 data types with a defined CLASS, OPT and unknown "
+                   "types/classes passed over in silence; hypothesis: QTYPE-only codes 252..255 do not occur as record types). Messages "
+                   "are at most 65535 bytes (MessageReader::new refuses larger ones). Trusted: Lean kernel; model of reader.rs/records.rs (validated "
                    "by the `truth`/`views` streams); tools/extract.py for the bit expressions; the generator's encoder "
                    "(harness/src/streams/msggen.rs) for the ground truth.",
         streams=[dict(name="truth"), dict(name="views", quick=8000)],
-        explanation="C02: decode_wellformed (Props/C02Message.lean, non-vacuity example included), flags_layout, opt_layout, "
+        explanation="C02: decode_wellformed, iter_decode_wellformed (Props/C02Message.lean, non-vacuity examples included), flags_layout, opt_layout, "
                     "header_fields, question_decode, record_header_decode, rdata_decode; stream `truth` + `views`.",
     ),
     "C09": dict(
-        level="proof", module="Rsdns.Props.C09",
-        technique="Lean 4 invariant + refinement proof (error latch over every call; section tracker refines the linear pass along all conforming histories; documented seek criterion as an invariant) + reference automaton over one linear pass on the real code",
+        level="proof", module="Rsdns.Props.C09", modules=["Rsdns.Props.C09", "Rsdns.Props.C09History"],
+        technique="Lean 4 invariant + refinement proof over call histories of unbounded length (`run_conforming`: along every protocol-conforming history the reader is in a situation of the linear pass; `seek_when_documented`; error latch; offsets grow) + reference automaton over one linear pass on the real code",
         level_text="Proved for all states / all conforming histories of unbounded length: `done` is sticky and every failing sequential "
                    "call latches it (a seek answered RecordsSectionOffsetUnknown changes nothing); an exhausted reader reports "
                    "ReaderDone; the tracker's counters and lazily learned offsets satisfy a coupling invariant with the layout of one "
@@ -848,15 +849,18 @@ PROPS = {
                    "offset is known (doc_known), hence seek succeeds (seek_known). On the implementation a specification automaton "
                    "replays each generated history against ONE linear pass of the same message on a fresh reader and checks every "
                    "returned item, every count and every seek outcome.",
-        level_note="The history theorem (doc_known) is stated over the tracker at the positions of the linear pass (`Lay`); "
-                   "pair_follows_pass ties those positions to the bytes: every successful header/data call pair of the real reader, in "
-                   "any of its instantiations, moves from index i to i+1 of the pass and returns the marker of record i. PARTIAL: the "
-                   "two are not yet folded into one induction over `Reader.run` histories (questions phase and header-time seek "
-                   "included); 'record offsets grow' is checked on the linear pass by the automaton. Trusted: Lean kernel; model of "
+        level_note="Props/C09History.lean folds everything into one induction over `Reader.run`: for messages whose skip pass succeeds "
+                   "(all well-formed messages and those whose only defects are inside typed RDATA) and every protocol-conforming "
+                   "history, the reader is always dead (sticky), inside the questions at the pass position, between records at the "
+                   "index of its counters, or in the middle of the record whose marker it returned; seek succeeds whenever the "
+                   "documented criterion holds and lands on the first record of the section (or the next non-empty one); record "
+                   "offsets grow. Panics are excluded by hypothesis there (C01/C17 treat them). Messages whose skip pass fails midway "
+                   "are covered by the latch theorems, the automaton and the correspondence. Trusted: Lean kernel; model of "
                    "reader.rs/section_tracker.rs (validated by `seekhist`/`reader`); tools/spec_c09.py.",
         streams=[dict(name="seekhist"), dict(name="reader", quick=8000)],
         explanation="C09: done_sticky, *_error_latches, seek_error, seek_known, exhausted_reports_done, header_attribution, "
-                    "data_advances, last_question, seek_index, seek_lands, doc_known, learned_offsets_true, pair_follows_pass; stream `seekhist`.",
+                    "data_advances, last_question, seek_index, seek_lands, doc_known, learned_offsets_true, pair_follows_pass; "
+                    "C09History: sit_step, run_conforming, seek_when_documented, sit_after_header, offsets_grow; stream `seekhist`.",
     ),
     "C06": dict(
         level="proof", module="Rsdns.Props.C06",
